@@ -433,6 +433,196 @@ pub fn property() -> Property {
     Property {
         id: "C12",
         level: "exploration",
-        parts: vec![Box::new(PropPart(HelloMatrix))],
+        parts: vec![Box::new(PropPart(HelloMatrix)), Box::new(PropPart(Framing))],
+    }
+}
+
+// ------------------------------------------------------------------ framing on the real TLS transport
+
+#[derive(Debug, Clone, Serialize, Deserialize)]
+pub struct FramingCase {
+    pub server_base10: bool,
+    pub server_base11: bool,
+    pub extra_caps: u8,
+}
+
+pub struct Framing;
+
+impl Prop for Framing {
+    type Case = FramingCase;
+    fn name(&self) -> &'static str {
+        "framing"
+    }
+    fn rule(&self) -> String {
+        "a conforming fake server on the real TLS transport advertising :base:1.0 only, :base:1.1 \
+         only or both (plus generated other capabilities); after the hello exchange it uses RFC \
+         6242 chunked framing iff both peers advertised :base:1.1 (it reads the client's hello to \
+         decide), else end-of-message framing. Oracle: whenever session establishment succeeds, the \
+         first get-config completes with the payload the server sent; establishment must succeed \
+         when a common base version exists. Non-trivial = the server advertises :base:1.1; \
+         distinct by capability set"
+            .into()
+    }
+    fn cases(&self, tier: Tier) -> u32 {
+        tier.pick(24, 600)
+    }
+    fn max_threads(&self) -> usize {
+        4
+    }
+    fn strategy(&self, _tier: Tier) -> BoxedStrategy<FramingCase> {
+        (any::<bool>(), any::<bool>(), any::<u8>())
+            .prop_map(|(a, b, extra_caps)| FramingCase {
+                server_base10: a || !b,
+                server_base11: b,
+                extra_caps,
+            })
+            .boxed()
+    }
+    fn fixed_cases(&self) -> Vec<FramingCase> {
+        vec![
+            FramingCase { server_base10: true, server_base11: false, extra_caps: 0 },
+            FramingCase { server_base10: true, server_base11: true, extra_caps: 0 },
+            FramingCase { server_base10: false, server_base11: true, extra_caps: 0 },
+        ]
+    }
+    fn check(&self, case: &FramingCase) -> Obs {
+        use crate::script::{hello_bytes, Script, Step};
+        use netconf::message::rpc::operation::{Builder as _, GetConfig, Opaque};
+        let mut obs = Obs::default();
+        obs.nontrivial = case.server_base11;
+        let mut caps: Vec<&str> = Vec::new();
+        if case.server_base10 {
+            caps.push(BASE10);
+        }
+        if case.server_base11 {
+            caps.push(BASE11);
+        }
+        for (i, c) in [CAP_CANDIDATE, CAP_XPATH, CAP_STARTUP, CAP_JUNOS].iter().enumerate() {
+            if case.extra_caps & (1 << i) != 0 {
+                caps.push(c);
+            }
+        }
+        let payload = "<t xmlns=\"urn:verif\">framing</t>".to_string();
+        let script = Script {
+            steps: vec![
+                Step::Write(hello_bytes(&caps, 31)),
+                Step::AwaitMessages(1),
+                Step::NegotiateFraming {
+                    server_has_11: case.server_base11,
+                },
+                Step::AwaitMessages(2),
+                Step::ReplyNegotiated {
+                    payloads: vec![payload.clone()],
+                },
+                Step::HoldMs(2000),
+            ],
+        };
+        obs.class(format!(
+            "server:{}{}",
+            if case.server_base10 { "1.0" } else { "" },
+            if case.server_base11 { "+1.1" } else { "" }
+        ));
+        let run = |script: Script| -> Result<(String, bool), String> {
+            let r = crate::core::with_watchdog(std::time::Duration::from_secs(40), move || {
+                let rt = tokio::runtime::Builder::new_multi_thread()
+                    .worker_threads(2)
+                    .enable_all()
+                    .build()
+                    .map_err(|e| e.to_string())?;
+                let out = rt.block_on(async move {
+                    let listener = tokio::net::TcpListener::bind("127.0.0.1:0")
+                        .await
+                        .map_err(|e| e.to_string())?;
+                    let port = listener.local_addr().map_err(|e| e.to_string())?.port();
+                    let acceptor = crate::net::tls_acceptor("server.crt", "server.key");
+                    let server = tokio::spawn(crate::net::tls_server(
+                        listener,
+                        acceptor,
+                        script,
+                        crate::net::PreClose::None,
+                    ));
+                    let dir = crate::net::pki_dir();
+                    let ca = crate::net::read_certs(&dir.join("ca.crt")).remove(0);
+                    let cert = crate::net::read_certs(&dir.join("client-rsa.crt")).remove(0);
+                    let key = crate::net::read_key(&dir.join("client-rsa.pk8.key")).ok_or("key")?;
+                    let wait = std::time::Duration::from_secs(6);
+                    let est = tokio::time::timeout(
+                        wait,
+                        Session::tls(("127.0.0.1", port), "localhost", ca, cert, key),
+                    )
+                    .await;
+                    let res = match est {
+                        Err(_) => "establish:TIMEOUT".to_string(),
+                        Ok(Err(e)) => format!("establish:Err({e:?})"),
+                        Ok(Ok(mut sess)) => {
+                            let r = tokio::time::timeout(wait, async {
+                                match sess
+                                    .rpc::<GetConfig<Opaque>, _>(|b| {
+                                        b.source(crate::ops::Ds::Running.to_lib())?.finish()
+                                    })
+                                    .await
+                                {
+                                    Err(e) => format!("send:Err({e:?})"),
+                                    Ok(f) => match f.await {
+                                        Ok(v) => format!("reply:Ok({v})"),
+                                        Err(e) => format!("reply:Err({e:?})"),
+                                    },
+                                }
+                            })
+                            .await;
+                            r.unwrap_or_else(|_| "reply:TIMEOUT".to_string())
+                        }
+                    };
+                    server.abort();
+                    let chunked = false;
+                    Ok::<_, String>((res, chunked))
+                });
+                rt.shutdown_timeout(std::time::Duration::from_millis(200));
+                out
+            });
+            r.unwrap_or_else(|| Ok(("establish:NEVER-RETURNED".to_string(), false)))
+        };
+        let judge = |res: &str, obs: &mut Obs| {
+            let want = format!("reply:Ok({payload})");
+            let key = format!(
+                "server-advertises-{}{}",
+                if case.server_base10 { "1.0" } else { "" },
+                if case.server_base11 { "+1.1" } else { "" }
+            );
+            if res.starts_with("establish:Err") {
+                obs.class("result:not-established");
+                if case.server_base10 {
+                    obs.fail(
+                        format!("refused-although-1.0-is-common:{key}"),
+                        format!("establishment failed ({res}) although both peers support :base:1.0"),
+                    );
+                }
+            } else if res == want {
+                obs.class("result:usable");
+            } else {
+                obs.fail(
+                    format!("established-but-unusable:{key}"),
+                    format!("the session was established but the first get-config gave {res} against a conforming server (which uses chunked framing iff both hellos carry :base:1.1)"),
+                );
+            }
+        };
+        match run(script.clone()) {
+            Err(e) => obs.fail("harness-sanity:setup", e),
+            Ok((res, _)) => {
+                judge(&res, &mut obs);
+                if !obs.failures.is_empty() {
+                    // wall clock involved: confirm once
+                    let mut again = Obs::default();
+                    if let Ok((r2, _)) = run(script) {
+                        judge(&r2, &mut again);
+                    }
+                    if again.failures.is_empty() {
+                        obs.failures.clear();
+                        obs.class("not-reproduced(discarded)");
+                    }
+                }
+            }
+        }
+        obs
     }
 }
